@@ -35,3 +35,30 @@ Proof.
   by rewrite [conj _ * _]mulrC.
 Qed.
 End Trace.
+
+(* positivity in algebraic form: the quadratic form of the ensemble matrix is a p-weighted sum of conj(z) z terms *)
+Section Quad.
+Variable (F : fieldType) (conj : {rmorphism F -> F}).
+Variables (d k : nat).
+Variable psi : 'I_k -> 'cV[F]_d.
+Variable p : 'I_k -> F.
+
+Lemma adj_mul m n q (A : 'M[F]_(m, n)) (B : 'M[F]_(n, q)) : adj conj (A *m B) = adj conj B *m adj conj A.
+Proof.
+  apply/matrixP => i j. rewrite !mxE rmorph_sum. apply: eq_bigr => l _.
+  by rewrite !mxE rmorphM mulrC.
+Qed.
+
+(* the quadratic form of the ensemble matrix: <x|rho|x> = sum_i p_i conj(<psi_i|x>) <psi_i|x> *)
+Theorem rho_ens_quadratic_form (x : 'cV[F]_d) :
+  (forall y, conj (conj y) = y) ->
+  (adj conj x *m rho_ens conj psi p *m x) 0 0
+  = \sum_i p i * (conj ((adj conj (psi i) *m x) 0 0) * (adj conj (psi i) *m x) 0 0).
+Proof.
+  move=> Hinv. rewrite /rho_ens mulmx_sumr mulmx_suml summxE. apply: eq_bigr => i _.
+  rewrite -scalemxAr -scalemxAl mxE. congr (_ * _).
+  rewrite mulmxA -(mulmxA (adj conj x *m psi i)) mxE big_ord1. congr (_ * _).
+  rewrite !mxE rmorph_sum. apply: eq_bigr => l _.
+  by rewrite !mxE rmorphM Hinv mulrC.
+Qed.
+End Quad.
